@@ -75,6 +75,24 @@ def run_case(ctx, h, tmp):
                         {'case': h, 'format': fmt})
         if b1 != b2:
             ctx.violate({'clause': 'not-deterministic', 'format': fmt}, f'two consecutive saves differ [{label}]', {'case': h, 'format': fmt})
+        elif h % 3 == 0:
+            # the same document written somewhere else, through a URI object the caller keeps: twice, the same bytes,
+            # and they are there when save() returns
+            from pyecore.resources import URI
+            other = URI(path + '.copy')
+            try:
+                res.save(output=other, options=dict(opts))
+                c1 = open(path + '.copy', 'rb').read()
+                res.save(output=other, options=dict(opts))
+                c2 = open(path + '.copy', 'rb').read()
+            except Exception as e:
+                c1 = c2 = f'raised {type(e).__name__}'.encode()
+            ctx.evaluations += 1
+            ctx.count('save-to-output-uri/' + fmt)
+            if c1 != b1 or c2 != b1:
+                ctx.violate({'clause': 'not-deterministic', 'format': fmt, 'output': 'uri-object'},
+                            f'save(output=<URI object>) [{label}]: after the first call the target holds {len(c1)} bytes, after the '
+                            f'second {len(c2)}; a save to the resource\'s own URI writes {len(b1)}', {'case': h, 'format': fmt})
     # ---- every position at which an unserializable element can be planted ---------------------------------
     previous = b'PREVIOUS CONTENT OF THE TARGET\n'
     positions = []
